@@ -58,13 +58,21 @@ const REGISTER_T: u64 = u64::MAX - 1;
 /// re-register `plus` as multiplication at precedence 125
 const REREG: u64 = u64::MAX - 2;
 const REREG_T: u64 = u64::MAX - 3;
+/// replace the built-in function `max` (possibly as the very first engine call of the process)
+const REGMAX: u64 = u64::MAX - 4;
 
 fn is_reg(op: u64) -> bool {
-    op >= REREG_T
+    op >= REGMAX
 }
 
 fn register_plus(world: &mut World, op: u64) {
     use crate::model::lex::InfixInfo;
+    if op == REGMAX {
+        expression_engine::register_function("max", Arc::new(|_| Ok(Value::Number(Decimal::from(99)))));
+        let h: HFn = Arc::new(|_| Ok(Value::Number(Decimal::from(99))));
+        world.functions.insert("max".into(), h);
+        return;
+    }
     use expression_engine::{InfixOpAssociativity, InfixOpType};
     let mul = op == REREG || op == REREG_T;
     let prec = if mul { 125 } else { 110 };
@@ -114,6 +122,24 @@ fn reg_histories() -> Vec<Vec<u64>> {
             }
         }
     }
+    // a built-in function replaced before / between / after evaluations that use it (program 5
+    // calls min and max)
+    {
+        let uses: Vec<u64> = (0..3).map(|k| (5 * KINDS.len() + k) as u64).collect();
+        v.push(vec![REGMAX]);
+        for a in &uses {
+            v.push(vec![REGMAX, *a]);
+            v.push(vec![*a, REGMAX]);
+            for b in &uses {
+                v.push(vec![REGMAX, *a, *b]);
+                v.push(vec![*a, REGMAX, *b]);
+                for c in ops.iter().chain(uses.iter()) {
+                    v.push(vec![*c, *a, REGMAX, *b]);
+                    v.push(vec![REGMAX, *c, *a, *b]);
+                }
+            }
+        }
+    }
     // a registration followed by a re-registration with another handler and precedence
     // (same thread / another thread), evaluations before, between and after
     for (r1, r2) in [(REGISTER, REREG), (REGISTER, REREG_T), (REGISTER_T, REREG), (REGISTER_T, REREG_T)] {
@@ -147,6 +173,7 @@ fn op_text(op: u64) -> String {
         REGISTER_T => return "[other thread] register_infix_op(plus,110,LEFT,add)".into(),
         REREG => return "register_infix_op(plus,125,LEFT,mul)".into(),
         REREG_T => return "[other thread] register_infix_op(plus,125,LEFT,mul)".into(),
+        REGMAX => return "register_function(max, constant 99)".into(),
         _ => {}
     }
     format!("{}({:?})", KINDS[(op as usize) % KINDS.len()], PROGRAMS[(op as usize) / KINDS.len()])
@@ -410,7 +437,7 @@ impl Gate {
             if g.0 {
                 return true;
             }
-            if done.load(std::sync::atomic::Ordering::SeqCst) || t0.elapsed() > Duration::from_secs(60) {
+            if done.load(std::sync::atomic::Ordering::SeqCst) || t0.elapsed() > Duration::from_secs(8) {
                 return false;
             }
             g = self.cv.wait_timeout(g, Duration::from_millis(2)).unwrap().0;
